@@ -5,6 +5,7 @@ go 1.23.6
 require (
 	cosmossdk.io/log v1.5.1
 	cosmossdk.io/math v1.5.2
+	cosmossdk.io/store v1.1.2
 	github.com/cometbft/cometbft v0.38.17
 	github.com/cosmos/cosmos-db v1.1.1
 	github.com/cosmos/cosmos-sdk v0.53.0-rc.2
@@ -29,7 +30,6 @@ require (
 	cosmossdk.io/depinject v1.2.0-rc.1 // indirect
 	cosmossdk.io/errors v1.0.2 // indirect
 	cosmossdk.io/schema v1.0.0 // indirect
-	cosmossdk.io/store v1.1.2 // indirect
 	cosmossdk.io/x/evidence v0.2.0-rc.2 // indirect
 	cosmossdk.io/x/feegrant v0.2.0-rc.2 // indirect
 	cosmossdk.io/x/tx v0.14.0-rc.1 // indirect
